@@ -46,6 +46,30 @@ reg("C25", "model_checking",
     "5/C25")
 
 
+ENGINE_NOTE = ("Bounded: scenario programs with <=4 steps, num_workers<=3, <=6 events, retry budgets<=4; environment actions at "
+               "quiescence points of the event loop; async steps only. Trusted: inert instrumentation shim, virtual-time "
+               "loop, projection functions, TLC. Reducer conformance (TraceReducer.tla) is evidence, observer verdicts decide.")
+ENGINE_TECH = ("TLA+ Engine/Reducer spec model-checked by TLC; real-engine schedule exploration with TLC trace validation "
+               "(TraceReducer) and TLC-evaluated property observer")
+
+
+def engine(pid, what, ref):
+    reg(pid, "model_checking",
+        what + " Decided in three layers: (1) TLC exhaustively checks the property's invariant on Engine.tla (runner + "
+        "Reducer.tla, the same program dicts the real engine runs) for all schedules of small scenario programs; (2) the real "
+        "engine is driven under a virtual-time loop through bounded-DFS and seeded schedules, and every recorded reducer "
+        "transition is validated by TLC against Reducer.tla; (3) TLC evaluates the observer Obs_%s.tla -- a literal "
+        "transcription of the statement over step-body logs, the published stream and outcomes -- on every recorded "
+        "execution; only (1) and (3) produce verdicts." % pid,
+        ENGINE_NOTE, ENGINE_TECH, ref)
+
+
+engine("C01", "Worker limit and distinct worker slots per step.", "5/C01")
+engine("C04", "One outcome, one matching terminal event, stream consumer terminates.", "5/C04")
+engine("C11", "Tick-log replay (real rebuild_state_from_ticks at every on_tick) equals the live runner state.", "5/C11")
+engine("C35", "StepStateChanged telemetry alternates per worker slot, PREPARING only at capacity, InputRequired published once.", "5/C35")
+
+
 def build():
     props = [json.loads(l) for l in (ROOT / "properties.jsonl").read_text().splitlines() if l.strip()]
     checks, na = [], []
